@@ -1675,4 +1675,95 @@ example :
     lookup p.U (21, 1) = some ⟨"m2", 1, 0⟩ ∧ lookup p.U (24, 0) = none ∧ lookup p.U (0, 2) = none ∧
     curVer p "k" = some (22, 0) ∧ curVer p "j" = some (25, 0) := by decide
 
+-- ================================================================== `playForMiner`: the miner's own block
+
+/-- **`playForMiner` keeps the node on "canonical state + pool".** Same setting as `play_refines` (`R` = canonical state
+of the tip; the state refines "`R`, then the pool"; `PoolValid`, `ChainValid`, `BlockValid` — the block can be replayed on
+`R` —, fresh ids, frozen heights). The miner's block: its coinbase transactions (award, generated transactions) are not
+pending and write no key; its other transactions are pending (`playForMiner` does not apply them: it only pays their
+fees); the pending transactions it leaves out all stand after its pending members in the pool — it packs a prefix of
+the pool (`hprefix`; without it a transaction left pending could read a key version that a packed one overwrites).
+Then after a successful `playForMiner`: the pointer is `b.id`, the state refines "the canonical state of `b`, then the
+remaining pool applied in order", the remaining pool is the old one without the block's transactions and satisfies
+`PoolValid` on the canonical state of `b`. -/
+theorem playForMiner_refines (e : Env) (s : St) (lh : Int) (b : Block) (g : St) (hpl : ParentLower e)
+    (hb : e.block b.id = b) (hok : (playForMiner e s lh b).2 = .ok)
+    (hblk : BlockValid e (canon e g s.pointer) b)
+    (hpool : PoolValid e s.pool (canon e g s.pointer)) (hnd : s.pool.Nodup)
+    (hs : TRefines s (applyPool e s.pool (canon e g s.pointer)))
+    (hfreshU : ∀ i ∈ s.pool, ∀ o, lookup (canon e g s.pointer).U (i, o) = none)
+    (hfreshV : ∀ i ∈ s.pool ++ b.txs, ∀ k o, curVer (canon e g s.pointer) k ≠ some (i, o))
+    (hfz : FrozenInv e (canon e g s.pointer)) (hsf : ∀ i ∈ s.pool, StaticFrozen e i)
+    (hsub : ∀ i ∈ b.txs, (e.tx i).coinbase = false → i ∈ s.pool)
+    (hcb : ∀ i ∈ b.txs, (e.tx i).coinbase = true → i ∉ s.pool ∧ (e.tx i).kout = [])
+    (hprefix : ∀ a ∈ s.pool, a ∉ b.txs → ∀ i ∈ b.txs, i ∈ s.pool → [i, a].Sublist s.pool) :
+    (playForMiner e s lh b).1.pointer = b.id ∧
+    TRefines (playForMiner e s lh b).1 (applyPool e (playForMiner e s lh b).1.pool (canon e g b.id)) ∧
+    PoolValid e (playForMiner e s lh b).1.pool (canon e g b.id) ∧
+    (playForMiner e s lh b).1.pool = s.pool.filter (fun i => !b.txs.contains i) := by
+  have hP := (poolValid_iff e _ _).mp hpool
+  obtain ⟨lhb, s2b, hfwd⟩ := hblk.fwd
+  have hB := pValid_of_applyBlockTxs e lhb b.prop b.txs _ s2b hfwd
+  have hwB : ∀ i ∈ b.txs, WF e i := fun i hi => (txWF_iff e i).mp (hblk.wf i hi)
+  have hfU : ∀ i ∈ s.pool ++ b.txs, ∀ o, lookup (canon e g s.pointer).U (i, o) = none := by
+    intro i hi o
+    rcases List.mem_append.mp hi with h | h
+    · exact hfreshU i h o
+    · exact hblk.fresh i h o
+  obtain ⟨_, a2, a3⟩ := miner_absorb_form e s lh b (canon e g s.pointer) hok hs hP hnd hB hwB hblk.nodup hfU
+    hfreshV hfz hsf hsub hcb hprefix
+  obtain ⟨hpre, s2, _, hshape⟩ := playForMiner_ok_raw e s lh b hok
+  have hcanon : canon e g b.id = replayBlock e (canon e g s.pointer) b := by
+    rw [canon_child e g hpl b.id s.pointer (by rw [hb]; exact hpre), hb]
+  have hT : TabEq (replayTxs e b.prop b.txs (canon e g s.pointer)) (canon e g b.id) := by
+    rw [hcanon]
+    exact TabEq.of_tables (x := replayBlock e (canon e g s.pointer) b) ⟨rfl, rfl, rfl, rfl⟩
+  refine ⟨by rw [hshape], ?_, ?_, ?_⟩
+  · exact a2.trans (applyPool_tabEq e _ _ _ hT).trefines
+  · exact (poolValid_iff e _ _).mpr (poolOK_tabEq e _ _ _ hT a3)
+  · rw [hshape]
+
+-- non-vacuity: the node of the `play_refines` example (pool 21 22 23 24 26 on block 1) mines block 3 = award 30 and
+-- the first two pending transactions 21, 22; 23, 24, 26 stay pending
+private def pmEnv : Env := { prEnv with
+  txs := prEnv.txs ++ [(30, ⟨30, true, [], [⟨"m3", 10, 0⟩], [], []⟩)],
+  blocks := prEnv.blocks ++ [(3, ⟨3, some 1, 2, [30, 21, 22], "m3"⟩)] }
+private def pmS : St := { applyPool pmEnv prPool (canon pmEnv prG 1) with pool := prPool }
+
+example : ParentLower pmEnv := parentLower_of_blocks _ (by decide)
+example : pmEnv.block (pmEnv.block 3).id = pmEnv.block 3 ∧ pmS.pointer = 1 ∧ pmS.pool = prPool ∧ pmS.pool.Nodup ∧
+    (playForMiner pmEnv pmS 0 (pmEnv.block 3)).2 = .ok := by decide
+example : BlockValid pmEnv (canon pmEnv prG pmS.pointer) (pmEnv.block 3) := by
+  refine ⟨⟨0, fwd_of_res _ _ _ _ _ (by decide)⟩, ?_, by decide, ?_, by decide⟩
+  · intro i hi
+    have : i = 30 ∨ i = 21 ∨ i = 22 := by simpa [pmEnv, prEnv, Env.block, lookup] using hi
+    rcases this with rfl | rfl | rfl <;> exact ⟨by decide, by decide, by decide⟩
+  · intro i hi
+    have : i = 30 ∨ i = 21 ∨ i = 22 := by simpa [pmEnv, prEnv, Env.block, lookup] using hi
+    rcases this with rfl | rfl | rfl <;> exact absent_of_rows _ _ (by decide)
+example : PoolValid pmEnv pmS.pool (canon pmEnv prG pmS.pointer) :=
+  ⟨⟨0, by decide⟩, ⟨by decide, by decide, by decide⟩, absent_of_rows _ _ (by decide), by decide,
+   ⟨0, by decide⟩, ⟨by decide, by decide, by decide⟩, absent_of_rows _ _ (by decide), by decide,
+   ⟨0, by decide⟩, ⟨by decide, by decide, by decide⟩, absent_of_rows _ _ (by decide), by decide,
+   ⟨0, by decide⟩, ⟨by decide, by decide, by decide⟩, absent_of_rows _ _ (by decide), by decide,
+   ⟨0, by decide⟩, ⟨by decide, by decide, by decide⟩, absent_of_rows _ _ (by decide), by decide, trivial⟩
+example : TRefines pmS (applyPool pmEnv pmS.pool (canon pmEnv prG pmS.pointer)) :=
+  (TRefines.refl _).of_tables ⟨rfl, rfl, rfl, rfl⟩ ⟨rfl, rfl, rfl, rfl⟩
+example : ∀ i ∈ pmS.pool, ∀ o, lookup (canon pmEnv prG pmS.pointer).U (i, o) = none :=
+  fun i hi => absent_of_rows _ i (by revert i hi; decide)
+example : ∀ i ∈ pmS.pool ++ (pmEnv.block 3).txs, ∀ k o, curVer (canon pmEnv prG pmS.pointer) k ≠ some (i, o) :=
+  fun i hi => verFresh_of_rows _ i (by revert i hi; decide) (by revert i hi; decide)
+example : FrozenInv pmEnv (canon pmEnv prG pmS.pointer) := frozenInv_of_rows _ _ (by decide)
+example : (∀ i ∈ pmS.pool, StaticFrozen pmEnv i) ∧
+    (∀ i ∈ (pmEnv.block 3).txs, (pmEnv.tx i).coinbase = false → i ∈ pmS.pool) ∧
+    (∀ i ∈ (pmEnv.block 3).txs, (pmEnv.tx i).coinbase = true → i ∉ pmS.pool ∧ (pmEnv.tx i).kout = []) ∧
+    (∀ a ∈ pmS.pool, a ∉ (pmEnv.block 3).txs → ∀ i ∈ (pmEnv.block 3).txs, i ∈ pmS.pool →
+      [i, a].Sublist pmS.pool) := by decide
+example :
+    let p := (playForMiner pmEnv pmS 0 (pmEnv.block 3)).1
+    let c := applyPool pmEnv [23, 24, 26] (canon pmEnv prG 3)
+    p.pointer = 3 ∧ p.pool = [23, 24, 26] ∧ p.total = c.total ∧ (∀ k ∈ ["k", "j"], lookup p.ZU k = lookup c.ZU k) ∧
+    (∀ k ∈ p.U.map (·.1) ++ c.U.map (·.1), lookup p.U k = lookup c.U k) ∧
+    lookup p.U (21, 1) = some ⟨"m3", 1, 0⟩ ∧ curVer p "k" = some (22, 0) := by decide
+
 end XV.C01
